@@ -1,4 +1,5 @@
 import Modbus.Lemmas.AduRoundTrip
+import Modbus.Lemmas.Scan
 /-
 C05 — TCP (MBAP) ADU round-trip in both directions.
 
@@ -538,4 +539,120 @@ example : Tcp.decodeResponse [0x00, 0x01, 0x00, 0x00, 0x00, 0x03, 0x09, 0x83, 0x
     .ok (some (1, 9, .error ⟨.readHoldingRegisters, .illegalDataAddress⟩)) := by decide +kernel
 example : Tcp.decodeResponse (Spec.tcpFrame 1 9 [0xAC, 0x02]) = .ok none := by decide +kernel
 
+/-! ### exception frames outside the table, with following bytes -/
+
+/-- the attempt at the front of an MBAP frame whose PDU starts with a function code the response table does
+    not list — followed by ANY bytes — is rejected with an error (the predictor looks at byte 7 only) -/
+theorem tcp_attemptRsp_unknown (tid : UInt16) (uid : UInt8) (pdu : Bytes) (c : UInt8)
+    (h0 : pdu[0]? = some c) (hu : Spec.lenRule .rsp c.toNat = .unknown) (rest : Bytes) :
+    ∃ e, Tcp.attemptRsp (Spec.tcpFrame tid uid pdu ++ rest) = .err e := by
+  have hpos : 1 ≤ pdu.length := by
+    cases pdu with
+    | nil => simp at h0
+    | cons _ _ => simp
+  unfold Tcp.attemptRsp mkAttempt
+  rw [tcp_responsePduLen_eq]
+  have e := tcpFrame_split tid uid pdu rest
+  have : Spec.predict 7 .rsp (Spec.tcpFrame tid uid pdu ++ rest) = .reject := by
+    rw [e, predict_shift 7 .rsp _ _ rfl]
+    refine predict_reject (c := c) ?_ hu
+    rw [List.getElem?_append_left (by omega)]; exact h0
+  rw [this]
+  exact ⟨_, rfl⟩
+
+/-- **Exception frames outside the table, followed by ANY bytes.**  `F` = the encoded ADU of an exception
+    response for a function value the length table does not list (0, or 0x2C … 0x7F: PDU byte 0x80 or
+    0xAC … 0xFF), `rest` arbitrary:
+
+    * the scanner's attempt at offset 0 is an error (the length predictor rejects byte 7);
+    * so `tcp::decode` never reports a frame with `start = 0`: whatever it reports starts at an offset
+      1 … 255 and is what the attempt produced THERE;
+    * so whatever `tcp::server::decode_response` returns for `F ++ rest` — successful response or exception —
+      is the PDU of a frame found at a later offset, never the PDU `[f + 0x80, x]` located at offset 0;
+    * with nothing following, the answer is 'incomplete' (`tcp_exception_unframeable`).
+
+    NOT covered — and not provable, see `tcp_exception_unframeable_overlap_witness`: that the frame found at
+    a later offset does not OVERLAP the bytes of `F`.  The scanner resynchronises byte by byte, so offsets
+    1 … 8 are tried with the remaining bytes of `F` as their header; a suitable `rest` completes them to a
+    well-formed frame, which is then returned as a successful response. -/
+theorem tcp_exception_unframeable_followed (tid : UInt16) (uid : UInt8) (f x : UInt8)
+    (h : f = 0 ∨ (0x2B < f ∧ f < 0x80)) (rest : Bytes) :
+    (∃ e, Tcp.attemptRsp (Spec.tcpFrame tid uid [f + 0x80, x] ++ rest) = .err e) ∧
+    (∀ fr loc, Tcp.decodeRsp (Spec.tcpFrame tid uid [f + 0x80, x] ++ rest) = .ok (some (fr, loc)) →
+      1 ≤ loc.start ∧ loc.start < 256 ∧
+      Tcp.attemptRsp ((Spec.tcpFrame tid uid [f + 0x80, x] ++ rest).drop loc.start) = .ok (some (fr, loc.size))) ∧
+    (∀ t u p, Tcp.decodeResponse (Spec.tcpFrame tid uid [f + 0x80, x] ++ rest) = .ok (some (t, u, p)) →
+      ∃ fr loc, Tcp.decodeRsp (Spec.tcpFrame tid uid [f + 0x80, x] ++ rest) = .ok (some (fr, loc)) ∧
+        1 ≤ loc.start ∧ t = fr.transactionId ∧ u = fr.unitId ∧ decodeRspPdu fr.pdu = .ok p) ∧
+    (rest = [] → Tcp.decodeResponse (Spec.tcpFrame tid uid [f + 0x80, x] ++ rest) = .ok none) := by
+  have hatt := tcp_attemptRsp_unknown tid uid [f + 0x80, x] (f + 0x80) rfl (exc_rule_unknown f h) rest
+  have hscan : ∀ fr loc, Tcp.decodeRsp (Spec.tcpFrame tid uid [f + 0x80, x] ++ rest) = .ok (some (fr, loc)) →
+      1 ≤ loc.start ∧ loc.start < 256 ∧
+      Tcp.attemptRsp ((Spec.tcpFrame tid uid [f + 0x80, x] ++ rest).drop loc.start) = .ok (some (fr, loc.size)) := by
+    intro fr loc hs
+    obtain ⟨h1, _, h3, _⟩ := scan_no_later Tcp.attemptRsp _ fr loc hs
+    refine ⟨?_, h1, h3⟩
+    rcases Nat.eq_zero_or_pos loc.start with h0 | hp
+    · rw [h0, List.drop_zero] at h3
+      obtain ⟨e, he⟩ := hatt
+      rw [he] at h3; cases h3
+    · exact hp
+  refine ⟨hatt, hscan, ?_, ?_⟩
+  · intro t u p hd
+    unfold Tcp.decodeResponse at hd
+    have hne : (Spec.tcpFrame tid uid [f + 0x80, x] ++ rest).isEmpty = false :=
+      append_ne_nil_of_pos (by rw [tcpFrame_length]; omega) rest
+    rw [hne] at hd
+    simp only [Bool.false_eq_true, if_false] at hd
+    cases hs : Tcp.decodeRsp (Spec.tcpFrame tid uid [f + 0x80, x] ++ rest) with
+    | err e => rw [hs] at hd; cases hd
+    | panic => rw [hs] at hd; cases hd
+    | ok o =>
+      cases o with
+      | none => rw [hs] at hd; simp at hd
+      | some q =>
+        obtain ⟨fr, loc⟩ := q
+        rw [hs] at hd
+        simp only [Res.bind'_ok] at hd
+        refine ⟨fr, loc, rfl, (hscan fr loc hs).1, ?_⟩
+        unfold decodeRspPdu
+        cases hx : ExceptionResponse.decode fr.pdu with
+        | ok e =>
+          rw [hx] at hd
+          simp only [Res.ok.injEq, Option.some.injEq, Prod.mk.injEq] at hd
+          obtain ⟨rfl, rfl, rfl⟩ := hd
+          exact ⟨rfl, rfl, rfl⟩
+        | panic => rw [hx] at hd; cases hd
+        | err e =>
+          rw [hx] at hd
+          simp only at hd
+          cases hr : Response.decode fr.pdu with
+          | ok r =>
+            rw [hr] at hd
+            simp only [Res.map_ok, Res.ok.injEq, Option.some.injEq, Prod.mk.injEq] at hd
+            obtain ⟨rfl, rfl, rfl⟩ := hd
+            exact ⟨rfl, rfl, rfl⟩
+          | err e' => rw [hr] at hd; cases hd
+          | panic => rw [hr] at hd; cases hd
+  · rintro rfl
+    rw [List.append_nil]
+    exact tcp_exception_unframeable tid uid f x h
+/-- what `tcp_exception_unframeable_followed` cannot say: `F` = the frame of the exception PDU `AC 18`
+    (transaction 0, unit 0) followed by 766 chosen bytes.  Offset 0 is rejected; at offset 1 the bytes
+    `00 00 00 00 03 00 AC 18 02 FC …` ARE a well-formed MBAP frame (transaction 0, protocol 0, length 0x0300,
+    unit 0xAC, function 0x18 with count 0x02FC), and `decode_response` returns it as a SUCCESSFUL custom
+    response — eight of its bytes are bytes of `F`. -/
+theorem tcp_exception_unframeable_overlap_witness :
+    Spec.tcpFrame 0 0 [0xAC, 0x18] = [0, 0, 0, 0, 0, 3, 0, 0xAC, 0x18] ∧
+    Tcp.decodeResponse (Spec.tcpFrame 0 0 [0xAC, 0x18] ++ ([0x02, 0xFC] ++ List.replicate 764 0)) =
+      .ok (some (0, 0xAC, .ok (.custom (.custom 0x18) ([0x02, 0xFC] ++ List.replicate 764 0)))) ∧
+    (Tcp.decodeRsp (Spec.tcpFrame 0 0 [0xAC, 0x18] ++ ([0x02, 0xFC] ++ List.replicate 764 0))).map
+      (fun o => o.map (fun p => p.2)) = .ok (some ⟨1, 774⟩) := by
+  decide +kernel
+/-- a well-formed frame AFTER such an exception frame is found (at offset 9), here an exception response -/
+example : Tcp.decodeResponse (Spec.tcpFrame 1 9 [0xAC, 0x08] ++ Spec.tcpFrame 0 0 [0x83, 0x02]) =
+      .ok (some (0, 0, .error ⟨.readHoldingRegisters, .illegalDataAddress⟩)) ∧
+    (Tcp.decodeRsp (Spec.tcpFrame 1 9 [0xAC, 0x08] ++ Spec.tcpFrame 0 0 [0x83, 0x02])).map
+      (fun o => o.map (fun p => p.2)) = .ok (some ⟨9, 9⟩) := by
+  decide +kernel
 end Modbus.C05
